@@ -6,7 +6,7 @@ from props.scan_common import check_build_exit_codes
 from rules import (absent_from, guarded, calls_to, field_writes, who_may_call, must_pass, dominated_by,
                    full_range, loops_over, every_iteration_passes, basename, error_discipline,
                    origins, reject_if, skip_conditions_exact, is_enum, is_field, atom_cmp,
-                   anything, reached_only_via)
+                   anything, reached_only_via, unwrap_conv)
 
 MARK = 'Edge::mark_'
 
@@ -157,12 +157,24 @@ def run(ctx):
               'AllInputsReady does not look at validations_ (validations impose no ordering)')
     drv = prog.fn('DependencyScan::RecomputeDirty')
     for e in drv.calls('DependencyScan::RecomputeNodeDirty'):
-        # within the loop iteration, stack.clear() precedes the call
-        clears = [x for x in drv.events('call') if basename(x.get('name') or '') == 'clear' and
-                  mentions_var(x.get('recv'), 'stack')]
-        ok = any(x['_b'] == e['_b'] and x['_i'] < e['_i'] for x in clears)
+        # between two scans (and before the first) the DFS stack handed to the scan is emptied: `stack.clear()`,
+        # a fresh declaration of the vector, or an assignment of an empty one
+        names = {x['n'] for a in (e.get('args') or [])[1:2] for x in walk(a) if x.get('k') == 'var'}
+
+        def resets(x, names=names):
+            if x.get('k') == 'call' and basename(x.get('name') or '') == 'clear':
+                return any(mentions_var(x.get('recv'), n) for n in names)
+            if x.get('k') == 'decl' and x.get('n') in names:
+                i = unwrap_conv(x.get('init')) if x.get('init') is not None else None
+                return i is None or (isinstance(i, dict) and i.get('k') in ('ctor', 'construct', 'init') and not i.get('args')) or \
+                    dstr(i).endswith('{}')
+            return False
+        r1 = drv.find_path(None, lambda x: x is e, is_blocker=resets, from_succ=drv.entry)
+        r2 = drv.find_path(e, lambda x: x is e, is_blocker=resets)
+        ok = bool(names) and r1 is None and r2 is None
         ctx.check('C17.V1', ok, drv.name, 'driver:stack-not-cleared', drv.where(e),
-                  'the driver clears the DFS stack before scanning each queued (validation) node')
+                  'the driver clears the DFS stack before scanning each queued (validation) node',
+                  witness=None if ok else {'blocks': (r1 or r2 or [[]])[0]})
     ctx.floor('C17.V1', 6)
 
     # ---- O2: marks reset before re-scan -----------------------------------------------------------
@@ -187,12 +199,9 @@ def run(ctx):
     resets = [e for f, e, kind, rhs in field_writes(prog, MARK, [um])]
     ctx.check('C17.O2', len(resets) == 1, um.name, 'Unmark:reset-count', um.loc, 'one mark_ = VisitNone site')
     for e in resets:
-        for bid, b in um.blocks.items():
-            t = b.get('term')
-            if t and t['kind'] in ('for', 'range', 'while') and len(b['succ']) == 2 and \
-                    e['_b'] in um.reachable_from(b['succ'][0]) | {b['succ'][0]} and \
-                    'out_edges' in dstr(t.get('cond')):
-                loop = {'header': bid, 'body': b['succ'][0], 'line': t['line'], 'bound': 'node->out_edges()'}
+        for loop in loops_over(um, lambda d: (d.get('k') == 'mem' and d.get('n') == 'Node::out_edges_') or
+                               (d.get('k') == 'call' and d.get('name') == 'Node::out_edges')):
+            if e['_b'] in um.reachable_from(loop['body']) | {loop['body']}:
                 skip_conditions_exact(
                     ctx, 'C17.O2', um, loop, lambda x: x is e,
                     absent_from('Plan::want_') + [(mark_is('Edge::VisitNone'), True)],
@@ -205,12 +214,8 @@ def run(ctx):
     rec = list(um.calls('Plan::UnmarkDependents'))
     ctx.check('C17.O2', len(rec) == 1, um.name, 'Unmark:recursion-sites', um.loc, 'one recursive descent')
     for e in rec:
-        for bid, b in um.blocks.items():
-            t = b.get('term')
-            if t and t['kind'] in ('for', 'range', 'while') and len(b['succ']) == 2 and \
-                    e['_b'] in um.reachable_from(b['succ'][0]) | {b['succ'][0]} and \
-                    'Edge::outputs_' in dstr(t.get('cond')):
-                loop = {'header': bid, 'body': b['succ'][0], 'line': t['line'], 'bound': 'edge->outputs_'}
+        for loop in loops_over(um, 'Edge::outputs_'):
+            if e['_b'] in um.reachable_from(loop['body']) | {loop['body']}:
                 skip_conditions_exact(
                     ctx, 'C17.O2', um, loop, lambda x: x is e,
                     [(lambda a: 'insert' in dstr(a) and 'second' in dstr(a), False)],
